@@ -1,9 +1,12 @@
 package props
 
 import (
+	"bytes"
 	"fmt"
 	"sort"
+	"strings"
 
+	"github.com/elastos/Elastos.ELA/blockchain"
 	"github.com/elastos/Elastos.ELA/common"
 	"github.com/elastos/Elastos.ELA/core/types/interfaces"
 
@@ -20,26 +23,39 @@ import (
 //   * GetUTXO(programHash) and Ledger.GetAmount for every address that ever
 //     appeared (+ one that never did): same multiset of (txid,index,value),
 //     never a zero-value output;
-//   * GetTransaction(txid) (chain store and ffldb): found, same tx, same height
-//     iff the tx is on the active chain.
+//   * GetTransaction(txid) (chain store and ffldb): found, same tx (hash AND
+//     serialized bytes, i.e. including the witness data the hash does not
+//     cover), same height iff the tx is on the active chain.
+//
+// Restarts (props/c14_restart.go): the history is interleaved with node
+// restarts (close + re-open on the same data directory: the tx cache in front
+// of the tx index is empty, every indexer re-initialises from the database),
+// at random points and preferably right after reorganisations, including
+// directed episodes "replace the last 1..5 blocks by a branch longer by 1..3,
+// restart, mine blocks that spend outputs of the blocks around the fork". The
+// same full comparison runs after every restart and after every later step, so
+// every historic tx of the active chain is looked up through the database path.
 
 func init() {
 	kit.Register(&kit.Spec{
 		ID:   "C14",
-		Rule: "same history generator as C06 (one seeded history per shard on a live node: transfers with zero-value outputs, >255 outputs per tx, repeated addresses, full spends emptying an index entry, competing branches spending the same outpoints differently, reorganisations back and forth with in-order/reversed/shuffled/deferred delivery, rejected adversarial blocks, mempool traffic). After every step ALL known txids and addresses are queried. distinct = (step kind, resulting tip); non-trivial = the step delivered a block or submitted a tx to the node",
+		Rule: "same history generator as C06 (one seeded history per shard on a live node: transfers with zero-value outputs, >255 outputs per tx, repeated addresses, full spends emptying an index entry, competing branches spending the same outpoints differently, reorganisations back and forth with in-order/reversed/shuffled/deferred delivery, rejected adversarial blocks, mempool traffic), interleaved with node restarts on the same data directory (random points, after reorganisations, directed reorg(depth 1..5, branch longer by 1..3)+restart+spend-old-outputs episodes, and one at the end). After every step and after every restart ALL known txids and addresses are queried. distinct = (step kind, resulting tip); non-trivial = the step delivered a block or submitted a tx to the node, or re-opened the node",
 		Shards: func(tier string) int {
 			if tier == "thorough" {
 				return 48
 			}
 			return 16
 		},
-		Run:     runC14,
-		Require: []string{"steps", "replays", "reorgs", "q_unspent", "q_unspent_offchain_txid", "q_unspent_emptied_entry", "q_unspent_high_index_live", "q_utxo_addresses", "q_utxo_entries_compared", "q_zero_value_outputs_live", "q_tx_onchain", "q_tx_offchain", "q_balance", "tx_full_spend_of_entry", "tx_many_outputs_index_gt_255", "zero_value_outputs_spent", "high_index_outputs_spent", "same_tx_on_two_branches", "adv_blocks_rejected"},
+		Run: runC14,
+		Require: []string{"steps", "replays", "reorgs", "q_unspent", "q_unspent_offchain_txid", "q_unspent_emptied_entry", "q_unspent_high_index_live", "q_utxo_addresses", "q_utxo_entries_compared", "q_zero_value_outputs_live", "q_tx_onchain", "q_tx_offchain", "q_balance", "tx_full_spend_of_entry", "tx_many_outputs_index_gt_255", "zero_value_outputs_spent", "high_index_outputs_spent", "same_tx_on_two_branches", "adv_blocks_rejected",
+			"restarts", "restarts_after_reorg", "restarts_random_point", "restart_episodes", "restart_txcache_empty", "views_checked_after_restart", "historic_tx_lookups_after_restart", "q_tx_onchain_db_path", "q_tx_bytes_compared", "blocks_connected_after_restart", "reorgs_after_restart", "spends_after_restart_of_prerestart_outputs"},
 		Assumptions: []string{
 			"regnet parameters, pow era, InstantBlock difficulty, CoinbaseMaturity=3",
 			"the replay model (kit/node/ledger.go) is correct; it is rebuilt from Chain.GetBlockHash/GetBlockByHash only and shares no code with the indexers",
 			"views are compared at quiescent points (after ProcessBlock returned), never mid-update",
 			"failed reorganisations (heavier branch with an invalid block) are not generated here (property C12)",
+			"a restart is a clean close and an in-process re-open of the node on the same data directory (node.Start: new stores, caches, indexers, chain, pools); crash recovery is C17's subject. A node that does not come back on the chain it was closed with makes the run inconclusive (that is C23's subject), not a C14 violation",
+			"netsync shards: the SyncManager of the closed node cannot be unsubscribed from the process-wide event bus; it keeps cleaning its own (dead) pool and never touches the re-opened node",
 		},
 		TimeoutS: func(tier string) int { return 1800 },
 		Post: func(a *kit.Agg) {
@@ -62,9 +78,12 @@ func runC14(c *kit.Ctx) {
 		c.Inconclusive("history bootstrap: %v", err)
 		return
 	}
-	defer h.close()
-	nd := h.nd
-	ffl := nd.Store.GetFFLDB()
+	d := newC14Driver(c, h)
+	defer func() { // h.nd changes with every restart
+		if !d.panicked { // a panic inside the node may have left its locks held
+			h.close()
+		}
+	}()
 	addrs := map[common.Uint168]bool{}
 	for _, a := range h.accts {
 		addrs[a.ProgramHash] = true
@@ -78,11 +97,23 @@ func runC14(c *kit.Ctx) {
 	sample := c.Rand("c14-sample")
 	prevTxs := map[common.Uint256]uint32{}
 	prevByTx := map[common.Uint256][]uint16{}
+	wantBytes := map[common.Uint256][]byte{}           // txid -> bytes of the tx as it stands in its block
+	wantBytesAt := map[common.Uint256]common.Uint256{} // txid -> hash of that block (same tx, other witness on another branch)
 	h.onStep = func(kind string) {
+		// the node (and with it every store, cache and indexer) is replaced by a restart
+		nd := h.nd
+		ffl := nd.Store.GetFFLDB()
+		im := blockchain.VerifIndexManager(ffl)
+		restarted := d.restarts > 0
+		view := func() { // one view of the node compared with the model
+			if restarted {
+				c.Inc("views_checked_after_restart")
+			}
+		}
 		l := nd.Replay()
 		c.Inc("replays")
-		where := fmt.Sprintf("after step %d (%s, %s mode, height %d)", h.stepNo, kind, h.mode, l.Height)
-		// model: unspent indexes per txid, entries per address
+		where := fmt.Sprintf("after step %d (%s, %s mode, height %d, %d restarts so far)", h.stepNo, kind, h.mode, l.Height, d.restarts)
+		// model: unspent indexes per txid, entries per address, tx bytes per txid
 		byTx := map[common.Uint256][]uint16{}
 		byAddr := map[common.Uint168][]c14Entry{}
 		for k, o := range l.Unspent {
@@ -94,14 +125,25 @@ func runC14(c *kit.Ctx) {
 			}
 			byAddr[o.Owner] = append(byAddr[o.Owner], c14Entry{k.TxID, k.Index, o.Value})
 		}
+		chainTx := make(map[common.Uint256]interfaces.Transaction, len(l.Txs))
+		for _, b := range l.Blocks {
+			for _, tx := range b.Transactions {
+				chainTx[tx.Hash()] = tx
+				h.regTx(tx) // ALL txs of the active chain are queried, whoever built them
+			}
+		}
 		// ---- per txid ----
 		// Quick tier: every known txid after every step. Thorough tier (long
-		// histories): a full sweep every 4th step and at the end; in between
-		// every txid whose model state changed in this step, the 300 most
-		// recently built ones and a random sample of 150 others.
+		// histories): a full sweep every 4th step, after every restart and at
+		// the end; in between every txid whose model state changed in this
+		// step, the 300 most recently built ones and a random sample of 150
+		// others.
 		ids := append([]common.Uint256{ghost}, h.txOrder...)
-		if c.Quick() || h.stepNo%4 == 0 || kind == "final-flush" || kind == "bootstrap" {
+		if c.Quick() || h.stepNo%4 == 0 || kind == "final-flush" || kind == "bootstrap" || strings.HasPrefix(kind, "restart") {
 			c.Inc("q_full_sweeps")
+			if restarted {
+				c.Inc("q_full_sweeps_after_restart")
+			}
 		} else {
 			c.Inc("q_partial_sweeps")
 			sel := map[common.Uint256]bool{ghost: true}
@@ -148,6 +190,7 @@ func runC14(c *kit.Ctx) {
 			_, onChain := l.Txs[id]
 			got, err := ffl.GetUnspent(id)
 			c.Inc("q_unspent")
+			view()
 			if !onChain {
 				c.Inc("q_unspent_offchain_txid")
 			} else if len(want) == 0 {
@@ -161,25 +204,52 @@ func runC14(c *kit.Ctx) {
 			}
 			if err != nil {
 				c.Violate("unspent:query-error", fmt.Sprintf("%s: GetUnspent(%s): %v", where, id, err), nil)
-			} else if d := diffIdx(want, got); d != "" {
+			} else if df := diffIdx(want, got); df != "" {
 				sig := "unspent:wrong-index-set"
 				if !onChain {
 					sig = "unspent:entry-for-tx-not-on-active-chain"
 				}
-				c.Violate(sig, fmt.Sprintf("%s: GetUnspent(%s) (on active chain: %v): %s", where, id, onChain, d), nil)
+				c.Violate(sig, fmt.Sprintf("%s: GetUnspent(%s) (on active chain: %v): %s", where, id, onChain, df), nil)
 			}
-			// transaction lookup
+			// transaction lookup: through the tx cache in front of the index when
+			// the cache holds the tx, through the database (tx index entry ->
+			// block id -> block hash -> block region -> height) otherwise; after
+			// a restart the cache is empty.
 			wantH, _ := l.Txs[id]
+			cached := im != nil && im.VerifTxCacheHas(id)
 			checkTx := func(path string, tx interfaces.Transaction, hh uint32, e error) {
+				view()
 				if onChain {
 					c.Inc("q_tx_onchain")
+					if cached {
+						c.Inc("q_tx_onchain_cache_hit")
+					} else {
+						c.Inc("q_tx_onchain_db_path")
+						if restarted {
+							c.Inc("historic_tx_lookups_after_restart")
+						}
+					}
 					switch {
 					case e != nil || tx == nil:
 						c.Violate("txlookup:active-tx-not-found", fmt.Sprintf("%s: %s.GetTransaction(%s): %v, but the tx is on the active chain at height %d", where, path, id, e, wantH), nil)
 					case tx.Hash() != id:
-						c.Violate("txlookup:wrong-tx", fmt.Sprintf("%s: %s.GetTransaction(%s) returned tx %s", where, path, id, tx.Hash()), nil)
+						other := "a tx that is not on the active chain"
+						if oh, on := l.Txs[tx.Hash()]; on {
+							other = fmt.Sprintf("a tx of the block at height %d of the active chain", oh)
+						}
+						c.Violate("txlookup:wrong-tx", fmt.Sprintf("%s: %s.GetTransaction(%s) returned tx %s with height %d (%s); the active chain has the requested tx at height %d (tx cache held it: %v)", where, path, id, tx.Hash(), hh, other, wantH, cached), nil)
 					case hh != wantH:
 						c.Violate("txlookup:wrong-height", fmt.Sprintf("%s: %s.GetTransaction(%s) height %d, active chain has it at %d", where, path, id, hh, wantH), nil)
+					default:
+						c.Inc("q_tx_bytes_compared")
+						wb, ok := wantBytes[id] // immutable per (txid, block): serialized once
+						if !ok || wantBytesAt[id] != l.Hashes[wantH] {
+							wb = c14TxBytes(chainTx[id])
+							wantBytes[id], wantBytesAt[id] = wb, l.Hashes[wantH]
+						}
+						if gb := c14TxBytes(tx); !bytes.Equal(gb, wb) {
+							c.Violate("txlookup:wrong-bytes", fmt.Sprintf("%s: %s.GetTransaction(%s) has the right hash and height %d, but serializes to %d bytes that differ from the %d bytes of the tx in the block of the active chain", where, path, id, hh, len(gb), len(wb)), nil)
+						}
 					}
 				} else {
 					c.Inc("q_tx_offchain")
@@ -203,6 +273,7 @@ func runC14(c *kit.Ctx) {
 			a := a
 			got, err := ffl.GetUTXO(&a)
 			c.Inc("q_utxo_addresses")
+			view()
 			if err != nil {
 				c.Violate("utxo:query-error", fmt.Sprintf("%s: GetUTXO(%s): %v", where, a, err), nil)
 				continue
@@ -250,6 +321,7 @@ func runC14(c *kit.Ctx) {
 			}
 			amt, err := nd.Ledger.GetAmount(a)
 			c.Inc("q_balance")
+			view()
 			if err != nil {
 				c.Violate("balance:query-error", fmt.Sprintf("%s: GetAmount(%s): %v", where, a, err), nil)
 			} else if listOK && amt != sum {
@@ -258,11 +330,52 @@ func runC14(c *kit.Ctx) {
 		}
 		h.chainAgrees(l)
 		c.Case(fmt.Sprintf("%s|%s", kind, nd.Tip().String()), h.touched)
-		if h.stepNo%25 == 3 && c.Shard < 2 {
-			c.Sample(map[string]interface{}{"step": h.stepNo, "kind": kind, "mode": h.mode, "height": l.Height, "txids_queried": len(ids), "txids_on_active_chain": len(l.Txs), "addresses_queried": len(as), "model_unspent": len(l.Unspent)})
+		if (h.stepNo%25 == 3 || strings.HasPrefix(kind, "restart-after-reorg")) && c.Shard < 2 {
+			c.Sample(map[string]interface{}{"step": h.stepNo, "kind": kind, "mode": h.mode, "height": l.Height, "restarts_so_far": d.restarts, "txids_queried": len(ids), "txids_on_active_chain": len(l.Txs), "addresses_queried": len(as), "model_unspent": len(l.Unspent)})
 		}
 	}
-	h.run(c.N(110, 400))
+	// A panic of the node while it processes a block that is valid by
+	// construction (or while it re-opens, or answers a query) would kill the
+	// shard and with it everything the shard has observed so far.
+	if p, val, stack := kit.Guard(func() { d.run(c.N(90, 400)) }); p {
+		d.panicked = true
+		c.Violate("panic:"+c14PanicSite(stack), fmt.Sprintf("step %d (%s mode, %d restarts so far): the node panicked: %v\n%s", h.stepNo, h.mode, d.restarts, val, stack), nil)
+	}
+}
+
+// c14PanicSite names the repository function in which the (first) panic was
+// raised: the first repository frame below the oldest panic() frame of the
+// stack taken at recovery (the node re-panics from deferred rollbacks).
+func c14PanicSite(stack string) string {
+	const repo = "github.com/elastos/Elastos.ELA/"
+	lines := strings.Split(stack, "\n")
+	from := 0
+	for i, l := range lines {
+		if strings.HasPrefix(l, "panic(") {
+			from = i
+		}
+	}
+	for _, l := range lines[from:] {
+		if strings.HasPrefix(l, repo) {
+			l = strings.TrimPrefix(l, repo)
+			if i := strings.LastIndex(l, "("); i > 0 {
+				l = l[:i]
+			}
+			return l
+		}
+	}
+	return "outside-repository"
+}
+
+func c14TxBytes(tx interfaces.Transaction) []byte {
+	if tx == nil {
+		return nil
+	}
+	buf := new(bytes.Buffer)
+	if err := tx.Serialize(buf); err != nil {
+		return []byte("serialize error: " + err.Error())
+	}
+	return buf.Bytes()
 }
 
 // diffIdx compares index sets; "" = equal.
